@@ -7,9 +7,9 @@ descriptor table) and on `sfmodel ledger`; the two are compared operation by ope
 implementation's own transcript (`ledger end`): heap balance 0 bytes / 0 blocks, no unreachable block (LeakSanitizer),
 no new descriptor, empty private TMPDIR, sf_close returned 0, no sanitizer abort.
 """
-import re, struct, os
+import re, struct, os, sys
 
-from .. import formats, c03fuzz
+from .. import formats, c03fuzz, lateopen
 from ..core import Violation, modules_for
 
 LEAK_ENV = {"ASAN_OPTIONS": "exitcode=77:detect_leaks=1:allocator_may_return_null=1:abort_on_error=0:leak_check_at_exit=0"}
@@ -868,10 +868,12 @@ def run(ctx):
     seeds = make_seeds(ctx, seed_formats(fmts))
     ctx.notes["seed_files"] = len(seeds)
     mal = gen_malformed(ctx, seeds, rng, 24 if quick else 200, 3 if quick else 1)
+    late_found, late_seeds = lateopen.run_for(ctx, "C16", sys.modules[__name__], fmts)     # malformed inputs rejected AFTER each allocating chunk
+    scs += lateopen.prefix_scenarios(sys.modules[__name__], late_seeds, quick, rng)          # ... and their accepted counterparts, peeked
     allsc = scs + mal
     tr = run_scripts(ctx, allsc)
 
-    found_input = False
+    found_input = late_found
     kinds = {}
     # ---- property predicate on the implementation's transcripts ----
     nviol = 0
